@@ -520,6 +520,49 @@ def r7_access_lists(ctx):
     r.note("%d path steps walked" % counter[0])
 
 
+def r8_hash_eq_agree(ctx):
+    """The trusted-device set is an IndexSet keyed by the device's public key:
+    `Hash` is hand-written over `public_key` only, so `PartialEq` must compare
+    the same fields, otherwise a device trusted twice becomes two entries and a
+    revoke removes only one of them. Checked for every type with a hand-written Hash."""
+    ws = ctx.ws
+    r = ctx.rule("C11-R8", "a hand-written Hash and the type's PartialEq look at the same fields (set/map keys behave as keys)",
+                 floor=2, kind="K5 sibling agreement (field sets)")
+    n = 0
+    for imp in ws.impls:
+        if imp.get("trait") != "core::hash::Hash" or imp.get("crate") in idioms.TEST_CRATES or not imp.get("self_adt"):
+            continue
+        adt = imp["self_adt"]
+        hf = [ws.fns.get(it["path"]) for it in imp["items"]]
+        hf = [f for f in hf if f is not None and not f.meta.get("exp")]
+        if not hf:
+            continue   # derived Hash: all fields, agrees with any derived Eq; a manual Eq with derived Hash is clippy's lint
+        hr = set()
+        for f in hf:
+            hr |= idioms.fields_touched(ws, f, adt)[0]
+        er, eloc, found = set(), None, False
+        for e in ws.impls:
+            if e.get("trait") == "core::cmp::PartialEq" and e.get("self_adt") == adt:
+                for it in e["items"]:
+                    f2 = ws.fns.get(it["path"])
+                    if f2 is not None:
+                        found = True
+                        er |= idioms.fields_touched(ws, f2, adt)[0]
+                        eloc = cfg.loc(f2.main)
+        if not found:
+            continue
+        n += 1
+        k = "%s|hash-eq" % adt
+        if hr == er:
+            r.ok(k, cfg.loc(hf[0].main), "Hash and PartialEq both look at %s" % sorted(hr), work=2)
+        else:
+            r.violation(k, eloc or cfg.loc(hf[0].main),
+                        "Hash of %s looks at %s but PartialEq at %s: two values with the same key are distinct set entries (a device trusted twice stays trusted after one revoke)" % (
+                            adt.rsplit("::", 1)[-1], sorted(hr), sorted(er)), work=2)
+    if n < 2:
+        r.anchor_missing("types with a hand-written Hash and a PartialEq (found %d)" % n)
+
+
 def r5_verify_device(ctx):
     ws = ctx.ws
     r = ctx.rule("C11-R5", "verify_device: Ok for an existing account only after a trusted key verified the signature over the message",
@@ -669,3 +712,4 @@ def run(ctx):
     r5_verify_device(ctx)
     r6_trusted_set_refreshed(ctx)
     r7_access_lists(ctx)
+    r8_hash_eq_agree(ctx)
